@@ -40,6 +40,10 @@ def check_items(items) -> list[str]:
     body = RC.aidon_body(items)
     want = RC.aidon_expected(items)
     errs = []
+    try:  # a call that fails (truncated body) comes first: it must leave nothing behind
+        aidon.decode_notification_body(body[:-1])
+    except Exception:  # noqa: BLE001
+        pass
     try:
         d1 = aidon.decode_notification_body(body)
         d2 = aidon.decode_frame_content(RC.llc(body))
